@@ -17,7 +17,12 @@ pub fn main_with(f: impl FnOnce(&Ctx) -> anyhow::Result<report::Report>) -> anyh
 	if args.len() < 4 { eprintln!("usage: {} <seed> <quick|thorough> <outdir> [replay]", args[0]); std::process::exit(2); }
 	let ctx = Ctx { seed: args[1].parse()?, thorough: args[2] == "thorough", out: PathBuf::from(&args[3]), replay: args.get(4).map(PathBuf::from) };
 	std::panic::set_hook(Box::new(|_| {}));
+	std::fs::create_dir_all(&ctx.out)?;
+	let crumb = ctx.out.join("current_input.txt");
+	let _ = std::fs::remove_file(&crumb);
+	std::env::set_var("FBH_CRUMB", &crumb);
 	let report = f(&ctx)?;
 	report.write(&ctx.out)?;
+	let _ = std::fs::remove_file(&crumb);
 	Ok(())
 }
